@@ -1073,7 +1073,7 @@ SRV_ASSUME = [
 ]
 
 TABLE.update({
-    "C07": lambda tier, seed: srv_property("C07", tier, seed, ["srv_quick", "srv_race", "srv_capq"] + (["srv_cap"] if tier == "thorough" else []), [("full", "C07", 300, 3000), ("small", "C07", 300, 3000), ("full", "C07pipe", 200, 2000), ("full", "C08big", 16, 300), ("small", "C09race", 150, 1500), ("gen", "Gen_Srv_rogue.cfg", 0, 0), ("genx", "Gen_Srv_exh.cfg", 9, 12), ("genx", "Gen_Srv_exh3.cfg", 0, 10), ("genx", "Gen_Srv_exh11.cfg", 0, 13), ("genx", "Gen_Srv_exhrace.cfg", 7, 10)], SRV_ASSUME, "DESIGN.md 6 C07", proofs=ABS_PROOF),
+    "C07": lambda tier, seed: srv_property("C07", tier, seed, ["srv_quick", "srv_race", "srv_capq"] + (["srv_cap"] if tier == "thorough" else []), [("full", "C07", 300, 3000), ("small", "C07", 300, 3000), ("full", "C07pipe", 200, 2000), ("full", "C08big", 16, 48), ("small", "C09race", 150, 1500), ("gen", "Gen_Srv_rogue.cfg", 0, 0), ("genx", "Gen_Srv_exh.cfg", 9, 12), ("genx", "Gen_Srv_exh3.cfg", 0, 10), ("genx", "Gen_Srv_exh11.cfg", 0, 13), ("genx", "Gen_Srv_exhrace.cfg", 7, 10)], SRV_ASSUME, "DESIGN.md 6 C07", proofs=ABS_PROOF),
     "C09": lambda tier, seed: srv_property("C09", tier, seed, ["srv_quick", "srv_race", "srv_capq"] + (["srv_cap", "srv_livew"] if tier == "thorough" else []), [("full", "C09", 300, 3000), ("small", "C09", 200, 2000), ("small", "C10", 200, 2000), ("full", "C09slow", 40, 400), ("full", "C09race", 200, 2000), ("small", "C09race", 150, 1500), ("gen", "Gen_Srv_rogue.cfg", 0, 0), ("genx", "Gen_Srv_exh.cfg", 0, 12), ("genx", "Gen_Srv_exh8.cfg", 0, 14), ("genx", "Gen_Srv_exhrace.cfg", 0, 10)], SRV_ASSUME, "DESIGN.md 6 C09", proofs=INTR_PROOF),
     "C10": lambda tier, seed: srv_property("C10", tier, seed, ["srv_capq"] + (["srv_cap"] if tier == "thorough" else []), [("small", "C10", 300, 3000), ("full", "C10", 150, 1500)], SRV_ASSUME, "DESIGN.md 6 C10", proofs=ABS_PROOF),
     "C18": lambda tier, seed: srv_property("C18", tier, seed, ["srv_kill"], [("full", "C18", 300, 3000), ("small", "C18", 200, 2000), ("genx", "Gen_Srv_exhkill.cfg", 10, 13)], SRV_ASSUME, "DESIGN.md 6 C18"),
